@@ -9,7 +9,7 @@ def build(chk):
     chk.assumptions_used.update(["A-REAL", "A-NP"])
     slopecov.assembly_obligations(chk, 3, 2, mp=True)
     slopecov.c03_obligations(chk, 2, 2)
-    chk.bounded_native("real multiprocessing builds: bit-identical to the single-process matrix for worker counts 1..3 and rebuild sequences", "builds",
+    chk.bounded_native("real multiprocessing builds (worker counts 1..5, incl. counts that do not divide the number of sensor pairs; rebuild sequences) and schedule exploration with an in-process Pool stand-in that delivers unordered results in 4 different orders: bit-identical to the single-process matrix", "builds",
                        "3 systems (equal / unequal sub-aperture counts, off-axis NGS + LGS), 4 rebuild sequences", "aotools/turbulence/slopecovariance.py:CovarianceMatrix")
     chk.notes.append("OS scheduling is not modelled: the property reduces to the ordering contract of multiprocessing.Pool.map because results are consumed positionally; NumPy kernels are assumed deterministic")
     chk.notes.append("bound: 3 sensors x 2 layers for the assembly contract, 2 sensors x 2 layers for the build sequence (sensor / layer loops unrolled); masks, sub-aperture counts, geometry, worker count k >= 2 symbolic")
